@@ -283,7 +283,7 @@ bool ecdsa_special(const Ec *k, int kind, const B &tsel, const B &rsel, B &diges
             BN_nnmod(r, r, i.n, ctx()); if (BN_is_zero(r)) continue;
             BN_mod_mul(e, r, d, i.n, ctx());
         } else {                    // any r in [1,n-1], e = -r*d, s = e/t  (u1 = t, u2*d = -t)
-            BIGNUM *rs = tobn(rsel); BN_nnmod(rs, rs, nm1, ctx()); BN_add_word(rs, 1); BN_copy(r, rs); BN_free(rs);
+            BIGNUM *rs = tobn(rsel); BN_add_word(rs, (BN_ULONG) tries); BN_nnmod(rs, rs, nm1, ctx()); BN_add_word(rs, 1); if (tries & 1) BN_sub(rs, i.n, rs); BN_copy(r, rs); BN_free(rs);
             BN_mod_mul(e, r, d, i.n, ctx()); BN_sub(e, i.n, e); BN_nnmod(e, e, i.n, ctx());
         }
         if (BN_is_zero(e) || BN_cmp(e, lim) >= 0) continue;
